@@ -65,6 +65,7 @@ type Engine struct {
 	observers []Observer
 	notes     map[string]bool
 	stack     []*ssa.Function
+	combStack []combFrame
 	ctx       []string
 	rounds    int
 	maxDisj   int
